@@ -189,7 +189,7 @@ def run(ctx):
         "programs): monitored by the oracle; for the shipped models they are theorems about the regenerated "
         "definitions (Props/C02, Props/C13Shape: translation, baseline, linearity for all five; monotone in depth "
         "and continuous across the contact point for the four single-material models, the sphere series up to the "
-        "tip radius; the layered Clifford model's monotonicity/continuity is checked by the oracle only)"]
+        "tip radius; the layered Clifford model is proved continuous, its monotonicity is checked by the oracle only)"]
     ctx.rule = ("abscissa arrays of either orientation (strict, with ties, noisy, constant, non-monotonic; lengths "
                 "1-50) through harness models (running sum = order-sensitive, index-dependent, point-wise) "
                 "registered in the real registry vs the Lean wrapper; default residuals vs (data - model) x "
